@@ -80,6 +80,12 @@ def main(ctx):
     cc.duplex_flow(ctx, 'C08', quick, DUPLEX, ctx.seed + 23)
     # ---- code -> spec: recorded natural executions validated by TLC ----
     cc.trace_validation(ctx, 'C08', quick)
+    # ---- the reader is a stream session (readline / readuntil / async for
+    # over runs longer than the window): its pause / resume bookkeeping decides
+    # when the window is re-opened; a reader that keeps reading gets every byte
+    # (scenarios of builder-stream, shared with C19) ----
+    from harness.drivers import stream as stream_drv
+    stream_drv.stream_reader_flow(ctx, quick)
     # ---- raw peer: extreme values, peer ignoring the window ----
     from harness.drivers import chan_raw
     values = (0, 1, 2, 0xffffffff) if quick else \
